@@ -222,7 +222,8 @@ class NCElement:
         self.__parser = etree.XMLParser(remove_blank_text=True, huge_tree=self.__huge_tree)
         self.__xslt_doc = etree.parse(io.BytesIO(self.__xslt), self.__parser)
         self.__transform = etree.XSLT(self.__xslt_doc)
-        self.__root = etree.fromstring(str(self.__transform(etree.parse(StringIO(str(rpc_reply)),
+        # parse from bytes: lxml refuses text that carries an XML encoding declaration
+        self.__root = etree.fromstring(str(self.__transform(etree.parse(io.BytesIO(str(rpc_reply).encode('UTF-8')),
                                                                         parser=self.__parser))),
                                        parser=self.__parser)
         return self.__root
